@@ -88,9 +88,14 @@ func asInt(d any) (int64, error) {
 		var i int64
 		intType := reflect.TypeOf(i)
 		dValue := reflect.ValueOf(d)
-		if !dValue.IsValid() || !dValue.CanConvert(intType) {
+		if !dValue.IsValid() || !kindsAgree(dValue.Kind(), intType.Kind()) || !dValue.CanConvert(intType) {
 			return 0, &ConstraintError{
 				Message: fmt.Sprintf("%T is not a valid data type for an int schema.", d),
+			}
+		}
+		if dValue.CanUint() && dValue.Uint() > math.MaxInt64 {
+			return 0, &ConstraintError{
+				Message: fmt.Sprintf("%d does not fit into a 64-bit signed integer.", dValue.Uint()),
 			}
 		}
 		data = dValue.Convert(intType).Int()
